@@ -59,6 +59,8 @@ SCEN = {
     'UpgC': lambda inv=(): sc('MC_UpgC', 4, 5, inv),
     'ConnWinS': lambda inv=(): sc('MC_ConnWinS', 4, 6, inv),
     'ConnOutS': lambda inv=(): sc('MC_ConnOutS', 4, 5, inv),
+    'BacklogS': lambda inv=(): sc('MC_BacklogS', 4, 5, inv),
+    'SplitResetC': lambda inv=(): sc('MC_SplitResetC', 5, 6, inv),
     # copies of the header scenarios under a non-default configuration
     'HdrInSNoVal': lambda inv=(): sc('MC_HdrInSNoVal', 3, 4, inv),
     'HdrInCPlain': lambda inv=(): sc('MC_HdrInCPlain', 3, 4, inv),
@@ -118,8 +120,8 @@ PROPS = {
                only('thorough', 'MC_HdrEnumInS2', 2, ['P_C15_DeliveredBlocksConformant']),
                only('thorough', 'MC_HdrEnumInC2', 2, ['P_C15_DeliveredBlocksConformant'])],
             'lens': [(['r', 'e', 'o'], S('frame:HEADERS', 'frame:PP'))]},
-    'C16': {'scenarios': scen('LenC LenS LenC2', ['P_C16_ContentLength']),
-            'lens': [(['r', 'e', 'o', 'z.streams.ecl', 'z.streams.acl', 'z.streams.meth'], S('frame:HEADERS', 'frame:DATA'))]},
+    'C16': {'scenarios': scen('LenC LenS LenC2 PushC', ['P_C16_ContentLength']),
+            'lens': [(['r', 'e', 'o', 'z.streams.ecl', 'z.streams.acl', 'z.streams.meth'], S('frame:HEADERS', 'frame:DATA', 'frame:PP'))]},
     'C17': {'scenarios': scen('CloseS HdrInS HdrInC LifeC RawS RawC HdrInSNoVal HdrInCPlain AltNoValC MiscC PushC', ['OnlyKnownExceptions'])
             + [sc('MC_HdrEnumInS', 2, 2, ['OnlyKnownExceptions']), sc('MC_HdrEnumInC', 2, 2, ['OnlyKnownExceptions'])],
             'lens': [(['r'], S('recv', 'dlv'))]},
@@ -127,20 +129,20 @@ PROPS = {
             'lens': [(['r', 'o'], S('recv', 'dlv'))]},
     'C19': {'scenarios': scen('CloseS MiscC QuietS QuietC', ['P_C19_ClosedStaysQuiet', 'P_C19_GoAwayDiscardsOutput']),
             'lens': [(['r', 'o', 'z.conn'], ANY)]},
-    'C20': {'scenarios': scen('LifeC LifeS Pair1 PushC', ['P_C20_ResetRacesAreStreamErrors']),
-            'lens': [(['r', 'o', 'e', 'q.rw', 'z.iw', 'z.closed', 'z.streams.by', 'z.hp'], S('recv', 'dlv'))]},
+    'C20': {'scenarios': scen('LifeC LifeS Pair1 PushC SplitResetC', ['P_C20_ResetRacesAreStreamErrors']),
+            'lens': [(['r', 'o', 'e', 'q.rw', 'z.iw', 'z.closed', 'z.streams.by', 'z.hp', 'z.hb', 'z.conn'], S('recv', 'dlv')), (['z.hb'], ANY)]},
     'C21': {'scenarios': [dict(s, chunked=True) for s in scen('LifeS LifeC MiscC CloseS FrameS RawS RawC', [])],
             'lens': [(['r', 'o', 'e'], S('recv', 'dlv'))]},
     'C22': {'scenarios': scen('LifeC SetC MiscS Pair1 PushC PushS PushOffC', ['P_C22_PushOnlyWhenAllowed']),
             'lens': [(['r', 'o', 'e'] + STATE_FSM, S('call:push', 'frame:PP')), (['r', 'e'], S('frame:HEADERS', 'frame:DATA'))]},
-    'C23': {'scenarios': scen('MiscC MiscS', ['P_C23_PriorityChangesNothing']),
+    'C23': {'scenarios': scen('MiscC MiscS PushS', ['P_C23_PriorityChangesNothing']),
             'lens': [(['r', 'o', 'e'], S('call:prio', 'frame:PRIO')), (['r', 'o', 'e'], S('call:hdr', 'frame:HEADERS')),
                      (['z.streams', 'z.closed', 'z.ow', 'z.iw'], S('call:prio', 'frame:PRIO'))]},
     'C24': {'scenarios': scen('MiscC MiscS AltNoValC', ['P_C24_AltSvcRules']),
             'lens': [(['r', 'o', 'e'], S('call:alt', 'frame:ALT')), (['z.streams.auth'], ANY)]},
     'C25': {'scenarios': scen('UpgPair UpgS UpgC', ['P_C25_UpgradeHandsOver', 'RaisingCallEmitsNothing']),
             'lens': [(ALL_PUBLIC + STATE_FSM + ['z.rs', 'z.ls', 'z.hiIn', 'z.hiOut', 'z.streams.ow', 'z.ow'], ANY)]},
-    'C26': {'scenarios': scen('MiscC MiscS CloseS', ['P_C26_PingAnsweredOnce']),
+    'C26': {'scenarios': scen('MiscC MiscS CloseS BacklogS', ['P_C26_PingAnsweredOnce']),
             'lens': [(['r', 'o', 'e'], S('call:ping', 'frame:PING'))]},
     'C27': {'scenarios': scen('CloseS MiscS MiscC LifeS HdrInS PushC RawS SetS TableS', ['P_C27_ClosedMemoryBounded', 'P_C27_NoStateForNonOpeningFrames']),
             'lens': [(['z.streams', 'z.closed', 'z.pend', 'z.hb'], ANY), (['r', 'o'], S('frame:HEADERS', 'frame:PP', 'frame:CONT', 'frame:RAW'))]},
